@@ -195,6 +195,14 @@ class Gen:
         return self.r.choice(ids) if ids else None
 
     def line(self, c, text):
+        # a client may prefix its line with a ':source' (its own nick, somebody else's, nobody's, a full mask): the
+        # prefix is parsed and otherwise ignored - the line is executed or answered like the unprefixed one
+        if self.profile not in ("pingpong",) and text and not text.startswith(":") and len(text.encode()) < 1800 \
+                and self.r.random() < 0.025:
+            r = self.r
+            pre = r.choice([self.pick_nick(1.0), self.pick_nick(1.0), self.conns.get(c, {}).get("nick") or "x",
+                            "nobody", "irc.test", self.pick_nick(1.0) + "!~u@h", "a b"[:1]])
+            text = ":%s %s" % (pre, text)
         self.ops.append("line %d %s" % (c, esc(text)))
 
     def text(self, pool=None):
@@ -563,6 +571,10 @@ class Gen:
             if c3: L(c3, "JOIN " + ch)
             L(a, "MODE %s +%s %s" % (ch, r.choice(["h", "o", "v", "hv", "ho", "a"]), " ".join([nb] * 2)))
             if c3: L(a, "MODE %s +%s %s" % (ch, r.choice(["v", "h", "o"]), self.conns[c3]["nick"]))
+            # a member acting on its OWN rank needs the same privilege as for anybody else's
+            L(b, "MODE %s %s%s %s" % (ch, r.choice("-+-"), r.choice("hvoa"), nb))
+            if c3: L(c3, "MODE %s -%s %s" % (ch, r.choice("vh"), self.conns[c3]["nick"]))
+            L(a, "NAMES " + ch)
             self.chan_members[ch] = [x for x in (a, b, c3) if x]
             self.chan_founder[ch] = a
         elif k == "halfop_mode":
